@@ -1,5 +1,6 @@
 CONSTANTS
   MaxPos = 23
+  MaxChain = 2
 INIT Init
 NEXT Next
 ACTION_CONSTRAINT OneOutcome DumpPlan
